@@ -14,7 +14,7 @@ NSer(e) == Len(e.in.starts)
 Cnt(e, s, o) == Cardinality({ i \in DOMAIN e.in.ers : s \in Range(e.in.ers[i].series) /\ e.in.outs[i] = o })
 RunRec(e, r) == [status |-> r.status,
                  series |-> [s \in 1..NSer(e) |-> [ok |-> Cnt(e, s, "ok"), conflict |-> Cnt(e, s, "conflict"),
-                                                    unavailable |-> Cnt(e, s, "unavailable"), noconn |-> Cnt(e, s, "noconn"),
+                                                    unavailable |-> Cnt(e, s, "unavailable"), noconn |-> Cnt(e, s, "noconn"), notready |-> Cnt(e, s, "notready"),
                                                     other |-> Cnt(e, s, "other") + Cnt(e, s, "nodial"),
                                                     stored |-> r.stored[s]]]]
 Replicated(e) == e.in.rep # 0
